@@ -299,6 +299,7 @@ class Gen:
         self.next_cid = 1
         self.pool = []      # finished classes (Ty json), reusable
         self.big_used = False
+        self.budget = 120
 
     def fields(self, depth, n=None, top=False):
         rng = self.rng
@@ -356,6 +357,7 @@ class Gen:
         rng = self.rng
         if depth_left >= 4:
             self.big_used = False
+            self.budget = 120          # leaves per value: keeps deep signatures from exploding
         while True:
             vals = [[f['n'], self.member(f, depth_left, markers=markers)] for f in fields]
             if not must or any(v is not None for _, v in vals):
@@ -364,13 +366,16 @@ class Gen:
     def member(self, f, depth_left, p_none=0.25, markers=True):
         rng = self.rng
         t = f['t']
-        if rng.random() < p_none:
+        if rng.random() < p_none or (self.budget <= 0 and rng.random() < 0.85):
             return None
         if t['k'] != 'obj':
             if not f['many']:
+                self.budget -= 1
                 return self.leaf(t['k'])
             mx = f['max'] or 99
-            return {'l': [self.leaf(t['k']) for _ in range(min(mx, rng.choice([1, 1, 2, 3, 5, 12])))]}
+            n = min(mx, rng.choice([1, 1, 2, 3, 5, 12]))
+            self.budget -= n
+            return {'l': [self.leaf(t['k']) for _ in range(n)]}
         if not f['many']:
             if markers and rng.random() < 0.1:
                 return {'o': [[g['n'], None] for g in t['fields']], 'marker': True}
@@ -656,7 +661,9 @@ def run(ctx):
         g.pool = g.pool[-6:]
         sigs.append(g.fields(rng.choice([0, 1, 2, 2, 3, 3, 4] if ctx.thorough else [0, 1, 2, 2, 3]), top=True))
     model_ok = f['tagScope'] == 'perBranch'
-    for sig in sigs:
+    for i, sig in enumerate(sigs):
+        if i and i % 100 == 0:
+            ctx.log('%d signatures, %d queries' % (i, len(Q)))
         run_signature(ctx, g, sig, add, f, model_ok)
     t2_returns(ctx, g, add)
     ctx.log('implementation side done: %d queries' % len(Q))
